@@ -58,7 +58,7 @@ def battery(seed, n=24):
         L = [Fraction(1), Fraction(3), Fraction(25, 4), Fraction(7, 2)][i % 4]
         # (every fourth configuration takes a large step: |dt * symbol| well beyond pi, where branch cuts and stiffness show)
         yield {"N": Fraction(N), "L": L, "dt": Fraction(7) if i % 4 == 3 else Fraction([1, 7, 3][i % 3], 10), "C": Fraction(1 + i % 2), "E": Fraction(1),
-               "M": Fraction([16, 7][i % 2]), "r": Fraction(1), "kinj": Fraction(1 + i % 2), "n": Fraction(2 + i % 3),
+               "M": Fraction([16, 7][i % 2]), "r": [Fraction(1), Fraction(3, 2), Fraction(1, 2)][i % 3], "kinj": Fraction(1 + i % 2), "n": Fraction(2 + i % 3),
                "__rnd__": rnd.random()}
 
 
